@@ -380,8 +380,22 @@ func (env *rbEnv) exec(c *rbCase, pick func(int) int) (res string) {
 
 	err := env.cl.OpenStream(vb, map[uint32]string{}, off, obs)
 
+	// the offset handed to OpenStream is the object the stream keeps as the TRACKED position of the vBucket (stream.openStream passes
+	// the entry of s.offsets): opening - with or without a rollback - must leave it alone (C04: only settled events move the position)
+	rewritten := off.SnapshotMarker == nil || uint64(off.VbUUID) != c.uuid || off.SeqNo != c.f || off.StartSeqNo != c.ss || off.EndSeqNo != c.se || off.LatestSeqNo != c.latest
+
 	status := "ok"
-	if err != nil {
+	if rewritten {
+		status = "offset-rewritten"
+		if err == nil { // the vBucket is reused by a later case: close the stream that was opened
+			if env.cl.CloseStream(vb) == nil {
+				select {
+				case <-ended:
+				case <-time.After(2 * time.Second):
+				}
+			}
+		}
+	} else if err != nil {
 		status = "err"
 	} else {
 		for _, ev := range c.evs {
